@@ -70,6 +70,9 @@ func ParseSecrets(secrets []*big.Int) ([][]*big.Int, error) {
 		}
 		if isLenEl {
 			nextPartLen = secrets[el].Int64()
+			if nextPartLen < 0 {
+				return nil, fmt.Errorf("ParseSecrets: commitment part has a negative size: part %d, size %d", len(parts), nextPartLen)
+			}
 			if MaxPartSize < nextPartLen {
 				return nil, fmt.Errorf("ParseSecrets: commitment part too large: part %d, size %d", len(parts), nextPartLen)
 			}
